@@ -337,7 +337,7 @@ func GenerateEnumType(p Printer, enum *protogen.Enum) {
 		// Check for custom enum_value annotation
 		customValue := annotations.GetEnumValueMapping(v)
 		if customValue != "" {
-			parts = append(parts, fmt.Sprintf(`"%s"`, customValue))
+			parts = append(parts, fmt.Sprintf(`%q`, customValue))
 		} else {
 			parts = append(parts, fmt.Sprintf(`"%s"`, string(v.Desc.Name())))
 		}
@@ -392,7 +392,7 @@ func GenerateOneofDiscriminatedUnionType(p Printer, msgName string, info *annota
 		switch {
 		case info.Flatten && variant.IsMessage:
 			// Flattened: { discriminator: "value", ...variant fields }
-			branch = fmt.Sprintf("{ %s: \"%s\"", info.Discriminator, variant.DiscriminatorVal)
+			branch = fmt.Sprintf("{ %s: %q", info.Discriminator, variant.DiscriminatorVal)
 			var sb strings.Builder
 			for _, childField := range variant.Field.Message.Fields {
 				jsonName := childField.Desc.JSONName()
@@ -406,7 +406,7 @@ func GenerateOneofDiscriminatedUnionType(p Printer, msgName string, info *annota
 			fieldJSONName := variant.Field.Desc.JSONName()
 			msgType := string(variant.Field.Message.Desc.Name())
 			branch = fmt.Sprintf(
-				"{ %s: \"%s\"; %s?: %s }",
+				"{ %s: %q; %s?: %s }",
 				info.Discriminator,
 				variant.DiscriminatorVal,
 				fieldJSONName,
@@ -417,7 +417,7 @@ func GenerateOneofDiscriminatedUnionType(p Printer, msgName string, info *annota
 			fieldJSONName := variant.Field.Desc.JSONName()
 			tsType := TSScalarTypeForField(variant.Field)
 			branch = fmt.Sprintf(
-				"{ %s: \"%s\"; %s?: %s }",
+				"{ %s: %q; %s?: %s }",
 				info.Discriminator,
 				variant.DiscriminatorVal,
 				fieldJSONName,
